@@ -67,3 +67,65 @@ func truthByName(n string) truthVal {
 	}
 	panic("unknown truth value " + n)
 }
+
+// ---- values for C11 (wrong types in every directive position)
+
+type vEmbedded struct {
+	vInner
+	Extra string
+}
+
+type vSelf struct {
+	Name string
+	Next *vSelf
+}
+
+type vStringer struct{ s string }
+
+func (v vStringer) String() string { return "stringer:" + v.s }
+
+func deepNested(depth int) any {
+	var v any = "leaf"
+	for i := 0; i < depth; i++ {
+		if i%2 == 0 {
+			v = map[string]any{"a": v}
+		} else {
+			v = []any{v}
+		}
+	}
+	return v
+}
+
+type wrongVal struct {
+	Name string
+	V    any
+}
+
+var wrongValues = func() []wrongVal {
+	self := &vSelf{Name: "self"}
+	self.Next = self
+	var nilMap map[string]any
+	var nilSlice []string
+	var nilFunc func()
+	var nilIface error
+	ch := make(chan int)
+	return []wrongVal{
+		{"nil", nil}, {"true", true}, {"int", 7}, {"int8", int8(-8)}, {"uint64", uint64(1 << 63)}, {"float", 2.5}, {"nan", math.NaN()}, {"inf", math.Inf(1)},
+		{"complex", complex(1, 2)}, {"string", "str"}, {"empty", ""}, {"bytes", []byte("by")}, {"rune", 'r'},
+		{"ints", []int{1, 2}}, {"anys", []any{1, "a", nil}}, {"array", [2]string{"x", "y"}}, {"nested", [][]int{{1}, {}}},
+		{"map", map[string]any{"a": map[string]any{"b": 1}, "Name": "n"}}, {"mapss", map[string]string{"a": "b"}}, {"mapint", map[int]string{0: "zero", 1: "one"}}, {"mapany", map[any]any{"a": 1, 2: "b"}},
+		{"nilmap", nilMap}, {"nilslice", nilSlice}, {"nilptr", nilStructPtr}, {"nilfunc", nilFunc}, {"niliface", nilIface},
+		{"struct", vStruct{Name: "n", Count: 1, priv: 2}}, {"structptr", &vStruct{Name: "p", priv: 3}}, {"outer", vOuter{Title: "t", Ptr: nil, priv: "x"}}, {"embedded", vEmbedded{vInner: vInner{Label: "l"}, Extra: "e"}},
+		{"func", func() string { return "f" }}, {"chan", ch}, {"time", baseTime}, {"self", self}, {"stringer", vStringer{"s"}},
+		{"deep1000", deepNested(1000)}, {"sliceofstruct", []vStruct{{Name: "a"}}}, {"ptrslice", &[]int{1}},
+	}
+}()
+
+func wrongByName(n string) any {
+	for _, w := range wrongValues {
+		if w.Name == n {
+			return w.V
+		}
+	}
+	panic("unknown wrong value " + n)
+}
